@@ -661,6 +661,31 @@ Contract(
 )
 
 
+
+def _graph_deadline_ens(c):
+    """C08 (a task-graph deadline miss is measured against the LATEST task deadline of the graph)"""
+    g = c.arg("self")
+    t, t2 = z3.Int(H.fresh_name("gd_t")), z3.Int(H.fresh_name("gd_t2"))
+    dl = lambda x: c.pre.rd(x, TASK, "_deadline")[1]
+    return {
+        "graph_deadline.no_task_deadline_is_later": z3.ForAll([t], z3.Implies(in_graph(c.pre, g, t), us(dl(t)) <= us(c.res)), patterns=[in_graph(c.pre, g, t)]),
+        "graph_deadline.is_some_task_deadline": z3.Exists([t2], z3.And(in_graph(c.pre, g, t2), dl(t2) == c.res)),
+    }
+
+
+Contract(
+    TG + ".deadline#body",
+    params={"self": TGR},
+    ret=ETy,
+    requires=lambda c: {"children_wf": _children_wf(c.pre, c.arg("self"))},
+    raises={"ValueError": lambda c: c.pre.c_len(Adj, g_children(c.pre, c.arg("self"))) == 0},
+    ensures=_graph_deadline_ens,
+    allocates=True,
+    note="verified against the body (max over the nodes' deadlines; ValueError for a graph without nodes); callers (the finish handler) use the abstract contract: a pure function of the graph",
+    props=("C08",),
+)
+
+
 # =================================================================================================
 # TaskGraph.cancel, the body (C06 / C07): what the cascade does to the tasks it returns and to all the others.
 # (WHICH tasks it reaches - the downstream closure up to joins with a live parent - is decided by the bounded stand-in.)
